@@ -7,6 +7,7 @@ import (
 	"fmt"
 	"math/rand"
 	"strings"
+	"unicode/utf16"
 
 	"google.golang.org/protobuf/encoding/protojson"
 	"google.golang.org/protobuf/encoding/protowire"
@@ -107,13 +108,56 @@ func chunkOfSize(seq int32, size int, fill func(n int) []byte) proto.Message {
 	return nil
 }
 
+// jsonQuote writes s as a JSON string literal in one of several spellings
+// (all of them plain RFC 8259):
+//
+//	0  short escapes \" \\, \u00XX for controls, \uXXXX (surrogate pairs) for non-ASCII
+//	1  \u005c for backslash, \u0022 for quote, \/ for solidus, non-ASCII as raw UTF-8
+//	2  short escapes incl. \t \n \r \b \f, non-ASCII as raw UTF-8
+func jsonQuote(s string, style int) string {
+	var sb strings.Builder
+	sb.WriteByte('"')
+	for _, r := range s {
+		switch {
+		case r == '"' || r == '\\':
+			if style == 1 {
+				fmt.Fprintf(&sb, `\u%04x`, r)
+			} else {
+				sb.WriteByte('\\')
+				sb.WriteRune(r)
+			}
+		case r == '/' && style == 1:
+			sb.WriteString(`\/`)
+		case r < 0x20:
+			short := map[rune]string{'\t': `\t`, '\n': `\n`, '\r': `\r`, '\b': `\b`, '\f': `\f`}[r]
+			if style == 2 && short != "" {
+				sb.WriteString(short)
+			} else {
+				fmt.Fprintf(&sb, `\u%04x`, r)
+			}
+		case r > 0x7e && style == 0:
+			if r > 0xffff {
+				r1, r2 := utf16.EncodeRune(r)
+				fmt.Fprintf(&sb, `\u%04x\u%04x`, r1, r2)
+			} else {
+				fmt.Fprintf(&sb, `\u%04x`, r)
+			}
+		default:
+			sb.WriteRune(r)
+		}
+	}
+	sb.WriteByte('"')
+	return sb.String()
+}
+
 // chunkJSON renders a Chunk as JSON text written by the harness (not by
 // larking's codec). The text is checked against protojson below.
-func chunkJSON(m proto.Message) string {
+func chunkJSON(m proto.Message) string { return chunkJSONStyle(m, 0) }
+
+func chunkJSONStyle(m proto.Message, style int) string {
 	var parts []string
 	if s := getField(m, "id").String(); s != "" {
-		q, _ := json.Marshal(s)
-		parts = append(parts, `"id":`+string(q))
+		parts = append(parts, `"id":`+jsonQuote(s, style))
 	}
 	if v := getField(m, "seq").Int(); v != 0 {
 		parts = append(parts, fmt.Sprintf(`"seq":%d`, v))
@@ -122,28 +166,28 @@ func chunkJSON(m proto.Message) string {
 		parts = append(parts, `"data":"`+base64.StdEncoding.EncodeToString(d)+`"`)
 	}
 	if s := getField(m, "text").String(); s != "" {
-		var sb strings.Builder
-		sb.WriteByte('"')
-		for _, c := range []byte(s) {
-			switch {
-			case c == '"' || c == '\\':
-				sb.WriteByte('\\')
-				sb.WriteByte(c)
-			case c < 0x20 || c > 0x7e:
-				fmt.Fprintf(&sb, `\u%04x`, c)
-			default:
-				sb.WriteByte(c)
-			}
-		}
-		sb.WriteByte('"')
-		parts = append(parts, `"text":`+sb.String())
+		parts = append(parts, `"text":`+jsonQuote(s, style))
 	}
 	out := "{" + strings.Join(parts, ",") + "}"
 	chk := vschema.NewMsg(chunkDesc())
 	if err := protojson.Unmarshal([]byte(out), chk); err != nil || !proto.Equal(chk, m) {
 		panic(fmt.Sprintf("stream: harness JSON %q is not the message (%v)", out, err))
 	}
+	var any interface{}
+	if err := json.Unmarshal([]byte(out), &any); err != nil {
+		panic(fmt.Sprintf("stream: harness JSON %q is not JSON (%v)", out, err))
+	}
 	return out
+}
+
+// hostileStrings are string values whose JSON spelling is hard on a scanner
+// that frames objects by counting braces: values ending in a backslash,
+// escaped quotes, backslash/quote runs, braces and brackets, escapes at the
+// very end of the string.
+var hostileStrings = []string{
+	`a\`, `\`, `\\`, `\\\`, `C:\dir\`, `"`, `\"`, `"\`, `\\"`, `a\"\\"\`, `\"}`, `"}{"`,
+	`}`, `{`, `}{`, `{"a":"}`, `]`, `[{]}`, `\}`, `\{"`, `{\"x\":{`, "tab\t", "nul\x00", "nl\n}", "snow\u2603", "\u00e9", "g\U0001d11e", "/\\/",
+	`\u005c`, `\\u0022`, `ends in quote"`, `""`, `\\\\"}]`,
 }
 
 // jsonChunkOfSize builds a Chunk whose harness JSON text has exactly size
@@ -210,7 +254,7 @@ func delimBody(msgs [][]byte, padPrefix int) ([]byte, []Seg) {
 
 // jsonBody: concatenated JSON objects. sep is written between objects and,
 // with trailing, also after the last one.
-func jsonBody(msgs [][]byte, sep string, trailing bool) ([]byte, []Seg) {
+func jsonBody(msgs [][]byte, sep string, trailing bool, style int) ([]byte, []Seg) {
 	var b []byte
 	var segs []Seg
 	for i, m := range msgs {
@@ -219,7 +263,7 @@ func jsonBody(msgs [][]byte, sep string, trailing bool) ([]byte, []Seg) {
 			b = append(b, sep...)
 		}
 		s.Pre = len(b)
-		b = append(b, chunkJSON(unmarshalAs(chunkDesc(), m))...)
+		b = append(b, chunkJSONStyle(unmarshalAs(chunkDesc(), m), style)...)
 		s.End = len(b)
 		segs = append(segs, s)
 	}
